@@ -11,12 +11,12 @@ var literals = []string{"1", "'lit'", "'it''s'", "\"dq\"", "NULL", "(1+2)", "f(1
 var blanksGen = []string{" ", "", "  ", "\n", "\t", " /* c */ ", "\r\n", " -- x\n"}
 var sepTokens = []string{" ", "\t", "\n", "\r", "=", ",", "[", ">", "<", "+", "-", "/", "|", "%"}
 var opTokens = []string{"&", "!", "~", "^", ";", "?", "@", "#", ":", "]", ".", ")", "(", "*", "$", "&&", "||", "<>", "!="}
-var quoteTokens = []string{"'", "\"", "''", "\"\"", "'a'", "\"b\"", "'$T.x'", "\"&T.*\"", "'it''s'", "'(*) VALUES ($T.*)'", "'\\'", "\"\\\"", "'x\\'", "\\", "\\'"}
-var commentTokens = []string{"--", "/*", "*/", "-- c\n", "/* $T.x */", "/**/", "/* ' */", "-- '\n", "/* (*) VALUES ($T.*) */", "-", "/", "*"}
+var quoteTokens = []string{"'", "\"", "''", "\"\"", "'a'", "\"b\"", "'$T.x'", "\"&T.*\"", "'it''s'", "'(*) VALUES ($T.*)'", "'\\'", "\"\\\"", "'x\\'", "\\", "\\'", "'a\x00b'", "\"\x00\"", "'\x00$T.x'"}
+var commentTokens = []string{"--", "/*", "*/", "-- c\n", "/* $T.x */", "/**/", "/* ' */", "-- '\n", "/* (*) VALUES ($T.*) */", "-", "/", "*", "-- \x00 $T.x\n", "/* \x00 &T.* ' */", "-- \x00'\n"}
 var kwTokens = []string{"AS", "as", "As", "VALUES", "values", "Values", "VALUEſ", "aſ", "AS&", "ASX", "SELECT", "FROM", "WHERE", "INSERT INTO t", "IN", "AND"}
 var nonASCII = []string{"é", "日本", "\xff", "\xc3", "\xe2\x82", "ſ", "K", " ", " ", "٣", "\xf0\x9f\x98\x80", "\xed\xa0\x80", "\xc0\xaf",
 	// characters that editors or other tools treat as line breaks or as invisible: only byte 10 ends a line
-	"\ufeff", "\u2028", "\u2029", "\u0085", "\v", "\f", "\r", "\u200b", "\u00a0"}
+	"\ufeff", "\u2028", "\u2029", "\u0085", "\v", "\f", "\r", "\u200b", "\u00a0", "\x00", "\x00", "\x01", "\x7f"}
 
 type parseGen struct {
 	r    *rng
@@ -273,6 +273,11 @@ func (g *parseGen) next() string {
 		default:
 			s = g.mutate(g.statement())
 		}
+	}
+	// deep nesting that is never closed (the scanner's work stays linear in the length)
+	if r.chance(1, 150) {
+		s = r.pick([]string{"SELECT max(", "x = count(", "INSERT INTO t (a) VALUES ($T.a, f(", "(", "SELECT f(1, ("}) +
+			strings.Repeat(r.pick([]string{"(", "((", "( ", "(a,", "f("}), 30+r.intn(40)) + r.pick([]string{"", " FROM t", ")", "'"})
 	}
 	// a byte order mark or another invisible character in front (a query read from a file)
 	if r.chance(1, 20) {
